@@ -9,6 +9,7 @@
   prints `case <id>`, one line per observable, `end`.  Unknown model / unparsable config: `bad-case`.
 -/
 import EasyNet.Drv.Framing
+import EasyNet.Drv.ExcFlow
 import EasyNet.Drv.Senders
 import EasyNet.Drv.TlsSend
 import EasyNet.Drv.StreamServer
@@ -20,6 +21,7 @@ open EasyNet.Drv
 /-- one runner per model family; each returns `none` for model names it does not know -/
 def runners : List (String → List String → List String → Option (List String)) :=
   [ runFraming
+  , runExcFlow
   , runSenders
   , runTls
   , runStreamServer
